@@ -1183,6 +1183,15 @@ func (f *Field) Import(rowIDs, columnIDs []uint64, timestamps []*time.Time, opts
 
 	fieldType := f.Type()
 
+	// A clearing import cannot carry time stamps: like ClearBit it removes the
+	// bits from every view the field has, not from the standard view only.
+	var clearViews []string
+	if options.Clear {
+		for _, v := range f.views() {
+			clearViews = append(clearViews, v.name)
+		}
+	}
+
 	// Split import data by fragment.
 	dataByFragment := make(map[importKey]importData)
 	for i := range rowIDs {
@@ -1199,7 +1208,9 @@ func (f *Field) Import(rowIDs, columnIDs []uint64, timestamps []*time.Time, opts
 		}
 
 		var standard []string
-		if timestamp == nil {
+		if options.Clear {
+			standard = clearViews
+		} else if timestamp == nil {
 			// like SetBit: without a time stamp only the standard view is
 			// written, and a field without one stores nothing
 			if !f.options.NoStandardView {
